@@ -108,6 +108,27 @@ def correspondence(res, tier, seed):
             add("close_list (map (qmap_extrap %s %s %s %s) %s) %s %s" % (em, im, X, Y, C.ql(vals), C.ql(obs), C.q(tol * 100)),
                 dict(func="quantile_map_non_parametically_with_constant_extrapolation", em=em, im=im, x=[str(v) for v in xs], y=[str(v) for v in ys], vals=[str(v) for v in vals], impl=[float(o) for o in obs]),
                 ("qmap_extrap", em, im))
+        # the x-on-y shortcut in "normal" mode: every sample value mapped through the sample's own ECDF (same skips)
+        def admissible(v):
+            if em == "linear_interpolation" and (is_tied_value(xs, v) or im in DISCRETE): return False
+            if em == "step_function" and im in DISCRETE:
+                p = Fraction(sum(1 for x in xs if x <= v), len(xs))
+                if (DISCRETE[im](len(ys), p)).denominator == 1 and p not in (0, 1): return False
+            return True
+        if all(admissible(v) for v in xs):
+            from ibicus.utils._math_utils import quantile_map_x_on_y_non_parametically as xony
+            obs = xony(fx, fy, mode="normal", ecdf_method=em, iecdf_method=im)
+            tol = C.tol_for(list(obs) + [float(v) for v in ys])
+            add("close_list (xony_normal %s %s %s %s) %s %s" % (em, im, X, Y, C.ql(obs), C.q(tol * 100)),
+                dict(func="quantile_map_x_on_y_non_parametically", em=em, im=im, x=[str(v) for v in xs], y=[str(v) for v in ys], impl=[float(o) for o in obs]),
+                ("x-on-y", em, im))
+        # ... and in "isimipv3.0" mode (average ranks + linear quantile): no discontinuities, every sample qualifies
+        from ibicus.utils._math_utils import quantile_map_x_on_y_non_parametically as xony2
+        obs = xony2(fx, fy, mode="isimipv3.0")
+        tol = C.tol_for(list(obs) + [float(v) for v in ys])
+        add("close_list (xony_isimip %s %s) %s %s" % (X, Y, C.ql(obs), C.q(tol * 100)),
+            dict(func="quantile_map_x_on_y_non_parametically(mode='isimipv3.0')", x=[str(v) for v in xs], y=[str(v) for v in ys], impl=[float(o) for o in obs]),
+            ("x-on-y-isimip", tied))
         # sort_array_like_another_one (equal sizes)
         from ibicus.utils import sort_array_like_another_one
         zs = gen_sample(r, n=len(xs), ties=False)   # np.argsort is not stable: exact comparison needs a tie-free y
